@@ -24,7 +24,13 @@ type Case struct {
 	Stride int        `json:"stride"`
 	Pts    [][2]int64 `json:"pts"`
 	Thr    model.F    `json:"thr"`
+	// Exp: every ordinate and the threshold are multiplied by 2^Exp (exact) before
+	// they are handed to the library; which points may be dropped does not change.
+	Exp int `json:"exp,omitempty"`
 }
+
+// curExp is Case.Exp of the case being evaluated (one case at a time per process).
+var curExp int
 
 func genCase(t *rapid.T) Case {
 	shape := rapid.SampledFrom([]string{"random", "walk", "collinear-runs", "closed-loop", "repeats", "zigzag", "tiny", "damped-zigzag", "mixed-scale"}).Draw(t, "shape")
@@ -118,7 +124,14 @@ func genCase(t *rapid.T) Case {
 	default:
 		thr = rapid.Float64Range(0, float64(side)+1).Draw(t, "thr")
 	}
-	return Case{Shape: shape, Stride: rapid.IntRange(2, 5).Draw(t, "stride"), Pts: pts, Thr: model.Of(thr)}
+	c := Case{Shape: shape, Stride: rapid.IntRange(2, 5).Draw(t, "stride"), Pts: pts, Thr: model.Of(thr)}
+	if rapid.IntRange(0, 5).Draw(t, "scaled") == 0 {
+		c.Exp = rapid.SampledFrom([]int{400, -400, 200, -200, 50, -50}).Draw(t, "exp")
+		if rapid.Bool().Draw(t, "expany") {
+			c.Exp = rapid.IntRange(-400, 400).Draw(t, "expv")
+		}
+	}
+	return c
 }
 
 // flat lays the points out with the given stride. The extra ordinates are junk
@@ -128,7 +141,7 @@ func genCase(t *rapid.T) Case {
 func flat(pts [][2]int64, stride int) []float64 {
 	out := make([]float64, 0, len(pts)*stride)
 	for i, p := range pts {
-		out = append(out, float64(p[0]), float64(p[1]))
+		out = append(out, math.Ldexp(float64(p[0]), curExp), math.Ldexp(float64(p[1]), curExp))
 		for d := 2; d < stride; d++ {
 			switch {
 			case stride%2 == 0:
@@ -146,6 +159,8 @@ func flat(pts [][2]int64, stride int) []float64 {
 func ep(p [2]int64) exact.P2 { return exact.Pt(float64(p[0]), float64(p[1])) }
 
 func prop(c Case) error {
+	curExp = c.Exp
+	defer func() { curExp = 0 }()
 	f := flat(c.Pts, c.Stride)
 	if err := simplify(c, f); err != nil {
 		return err
@@ -171,7 +186,7 @@ func prop(c Case) error {
 func simplify(c Case, f []float64) error {
 	thr := c.Thr.V()
 	before := append([]float64{}, f...)
-	idx := xy.SimplifyFlatCoords(f, thr, c.Stride)
+	idx := xy.SimplifyFlatCoords(f, math.Ldexp(thr, curExp), c.Stride)
 	for i := range f {
 		if math.Float64bits(f[i]) != math.Float64bits(before[i]) {
 			return fmt.Errorf("input modified at ordinate %d", i)
@@ -227,7 +242,7 @@ func simplify(c Case, f []float64) error {
 	for i, v := range idx {
 		kept[i] = c.Pts[v]
 	}
-	again := xy.SimplifyFlatCoords(flat(kept, c.Stride), thr, c.Stride)
+	again := xy.SimplifyFlatCoords(flat(kept, c.Stride), math.Ldexp(thr, curExp), c.Stride)
 	if len(again) != len(kept) {
 		return fmt.Errorf("simplifying the simplified line again dropped %d more points (%v of %d)", len(kept)-len(again), again, len(kept))
 	}
